@@ -29,6 +29,7 @@ type Event struct {
 	Failed   bool   `json:"failed,omitempty"`
 	Injected bool   `json:"injected,omitempty"` // failed because the fault plan said so (the real call was not made)
 	Parked   bool   `json:"parked,omitempty"`   // blocked by the crash plan (the real call was not made)
+	Err      string `json:"err,omitempty"`      // error text of a call that failed WITHOUT being injected (infrastructure diagnosis)
 	BG       bool   `json:"bg,omitempty"`       // issued by a background task (remap, metrics, engine cache); Ord = -1
 	// Data carries call-specific structured detail (e.g. the resources returned by Alloc / Realloc,
 	// in canonical Res form) for harnesses that feed the resource layer's answers to a model.
@@ -167,6 +168,13 @@ func (r *Recorder) done(idx int, err error) {
 	if idx < len(r.events) {
 		r.events[idx].done = true
 		r.events[idx].Failed = err != nil
+		if err != nil {
+			msg := err.Error()
+			if len(msg) > 200 {
+				msg = msg[:200]
+			}
+			r.events[idx].Err = msg
+		}
 		if r.plan.Hook != nil && r.plan.HookAfter && r.plan.HookFn != nil && *r.plan.Hook == r.events[idx].Addr && !r.events[idx].BG {
 			hookFn = r.plan.HookFn
 		}
